@@ -68,5 +68,7 @@ var genericCmds = map[string]func(common.Args, *common.Out) error{
 	"gwreplay":    generic.WideReplay,
 	"hashreplay":  generic.HashReplay,
 	"curvereplay": generic.CurveReplay,
+	"sigreplay":   generic.SigReplay,
+	"curvehints":  generic.CurveHints,
 	"c17replay":   rec.Replay,
 }
